@@ -82,15 +82,13 @@ theorem absent_covered (ix : Index) (H : Hist) (h : TInv ix H) (ke : KeyEntry) (
 /-! ### a freshly opened index -/
 
 theorem scanMin_le (kes : List KeyEntry) : ∀ (m : Int),
-    let r := kes.foldl (fun m ke => match ke.entries.head? with
-      | some e => if e.MinTime < m then e.MinTime else m
-      | none => m) m
+    let r := kes.foldl scanMinStep m
     r ≤ m ∧ ∀ ke ∈ kes, ∀ e, ke.entries.head? = some e → r ≤ e.MinTime := by
   induction kes with
   | nil => intro m; simp
   | cons ke kes ih =>
     intro m
-    simp only [List.foldl_cons]
+    simp only [List.foldl_cons, scanMinStep]
     cases hh : ke.entries.head? with
     | none =>
       simp only
@@ -118,15 +116,13 @@ theorem scanMin_le (kes : List KeyEntry) : ∀ (m : Int),
         · exact h2 x hx e he
 
 theorem scanMax_ge (kes : List KeyEntry) : ∀ (m : Int),
-    let r := kes.foldl (fun m ke => match ke.entries.getLast? with
-      | some e => if e.MaxTime > m then e.MaxTime else m
-      | none => m) m
+    let r := kes.foldl scanMaxStep m
     m ≤ r ∧ ∀ ke ∈ kes, ∀ e, ke.entries.getLast? = some e → e.MaxTime ≤ r := by
   induction kes with
   | nil => intro m; simp
   | cons ke kes ih =>
     intro m
-    simp only [List.foldl_cons]
+    simp only [List.foldl_cons, scanMaxStep]
     cases hh : ke.entries.getLast? with
     | none =>
       simp only
